@@ -7,15 +7,17 @@ from vlib import genome as G, pipeline as P, vcfmodel as vm
 
 ID = "C15"
 RULE = ("Polyploid pipeline cases: ploidy 2-6 (mostly 3-4), one contig with 6-25 well separated variants (mostly SNVs, some "
-        "indels, a share of tri-allelic SNVs), k true haplotypes with collapsed (identical) stretches, single-end reads that "
-        "are exact copies of a haplotype at uneven depth, optionally with substitution errors at SNV sites; options -B 0..5, "
-        "--use-prephasing on a partially phased input, --tag PS, threads 1. Oracle: every phased genotype lists exactly the "
+        "indels, a share of tri-allelic SNVs), k true haplotypes with collapsed (identical) stretches, reads that "
+        "(in a quarter of the cases partly paired-end) are exact copies of a haplotype at uneven depth, optionally with substitution "
+        "errors at SNV sites (wrong allele or a base matching no allele); options -B 0..5, "
+        "--use-prephasing on a partially phased input (ploidy <= 5), --tag PS, threads 1. Oracle: every phased genotype lists exactly the "
         "alleles of the input genotype with multiplicities and only heterozygous calls are phased; everything else in the file "
         "is unchanged (htslib diff); per sample the PS labels form contiguous runs in position order and each id is the "
         "1-based position of a read-covered heterozygous variant lying after the previous run's last phased variant and not "
         "after the run's first phased variant. Non-trivial = >= 2 blocks, or a multi-allelic phased call, or a collapsed "
         "region. Distinct = distinct generated case.")
 ASSUMPTIONS = [
+    "--use-prephasing is exercised for ploidy 2-5 only: at ploidy 6 the tool's own ILP (CBC) needs minutes for a single 12-variant case, which no case budget can absorb",
     "the check judges validity of the heuristic's output, not its quality",
     "read-covered = covered by a read that fully covers at least two heterozygous variants (the tool's own filter, recomputed from the generator's read geometry)",
 ]
@@ -53,6 +55,7 @@ def gen(draw):
     nreads = max(3, int(depth * ploidy * L / 200 / 2))
     nreads = min(nreads, 120)
     noisy = draw(st.integers(0, 2)) == 0
+    paired = draw(st.integers(0, 3)) == 0
     for i in range(nreads):
         h = draw(st.integers(0, ploidy - 1))
         s = draw(st.integers(0, L - 30))
@@ -60,10 +63,16 @@ def gen(draw):
         sp = {"name": "r%d" % i, "sample": "s", "chrom": "chr1", "hap": h, "segments": P.snap_segments([[s, e]], variants, L)}
         if noisy and draw(st.integers(0, 3)) == 0:
             sp["err"] = draw(st.integers(0, 10 ** 6))
+        if paired and draw(st.integers(0, 2)) == 0 and e + 40 < L:
+            s2 = e + draw(st.integers(10, 150))
+            p2 = P.snap_segments([[s2, min(L, s2 + draw(st.integers(50, 200)))]], variants, L)
+            if p2 and sp["segments"] and p2[0][0] > sp["segments"][-1][1]:
+                sp["pair"] = p2[0]
         if sp["segments"]:
             specs.append(sp)
     case["read_specs"] = specs
-    case["opts"] = {"B": draw(st.sampled_from([0, 1, 2, 3, 4, 4, 5])), "prephase": draw(st.integers(0, 3)) == 0}
+    case["opts"] = {"B": draw(st.sampled_from([0, 1, 2, 3, 4, 4, 5])), # the ILP behind --use-prephasing takes minutes per case at ploidy 6: drawn for ploidy <= 5 only
+                    "prephase": ploidy <= 5 and draw(st.integers(0, 5 if ploidy == 5 else 3)) == 0}
     return case
 
 
@@ -79,14 +88,16 @@ def apply_errors(case, reads):
         seq = list(r["seq"])
         for v in variants:
             if G.vtype(v) == "snv" and r["pos"] <= v["pos"] < r["pos"] + len(seq) and rng.random() < 0.3:
-                seq[v["pos"] - r["pos"]] = rng.choice([v["ref"], v["alt"]])
+                # a wrong allele, or a base that matches no allele (the read then spans the variant without an allele)
+                third = next(b for b in "ACGT" if b not in (v["ref"], v["alt"], v.get("alt2")))
+                seq[v["pos"] - r["pos"]] = rng.choice([v["ref"], v["alt"], third, third])
         r["seq"] = "".join(seq)
     return reads
 
 
 class PolyphasePart:
     name = "polyphase"
-    budget = {"quick": 1600, "thorough": 40000}
+    budget = {"quick": 4800, "thorough": 60000}
 
     def strategy(self, tier):
         @st.composite
@@ -133,8 +144,11 @@ class PolyphasePart:
         # accessible (read-covered) heterozygous variants, recomputed from the read geometry
         het = [vi for vi in range(len(variants)) if len({h[vi] for h in haps}) > 1]
         accessible = set()
+        by_name = {}
         for r in reads:
-            cov = [vi for vi in het if G.coverage_class(r, variants[vi]) == "full"]
+            by_name.setdefault(r["name"], []).append(r)
+        for rs in by_name.values():
+            cov = {vi for r in rs for vi in het if G.coverage_class(r, variants[vi]) == "full"}
             if len(cov) >= 2:
                 accessible.update(cov)
         acc_pos = {variants[vi]["pos"] for vi in accessible}
@@ -187,6 +201,10 @@ class PolyphasePart:
             ctx.label("multi-allelic-phased")
         if o["prephase"]:
             ctx.label("prephasing")
+        if any("pair" in sp for sp in case["read_specs"]):
+            ctx.label("paired-reads")
+        if any("err" in sp for sp in case["read_specs"]):
+            ctx.label("reads-with-errors")
         if not runs:
             ctx.label("nothing-phased")
 
